@@ -173,6 +173,15 @@ func diffClass(a, b reflect.Value) string {
 			}
 		}
 		return ""
+	case reflect.Float32:
+		x, y := float32(a.Float()), float32(b.Float())
+		if x == y || (x != x && y != y) {
+			return ""
+		}
+		if math.Nextafter32(x, y) == y {
+			return "float32-adjacent-values"
+		}
+		return "float32-value"
 	default:
 		if !reflect.DeepEqual(a.Interface(), b.Interface()) {
 			return a.Kind().String() + "-value"
@@ -342,30 +351,38 @@ func shapeClass(t *tdesc) string {
 }
 
 // mapKeyEqualsFieldName: some data key of a map in the document equals, ignoring case, a key
-// that addresses a struct field somewhere in the document.
+// that addresses a struct field somewhere below that map.
 func mapKeyEqualsFieldName(d *node) bool {
-	fields, data := map[string]bool{}, map[string]bool{}
-	var walk func(n *node)
-	walk = func(n *node) {
+	found := false
+	// returns the lower-cased field keys of the subtree
+	var walk func(n *node) map[string]bool
+	walk = func(n *node) map[string]bool {
+		fields := map[string]bool{}
+		var data []string
 		for _, x := range n.arr {
-			walk(x)
+			for k := range walk(x) {
+				fields[k] = true
+			}
 		}
 		for _, e := range n.ents {
 			if e.perm {
 				fields[strings.ToLower(e.key)] = true
 			} else {
-				data[strings.ToLower(e.key)] = true
+				data = append(data, strings.ToLower(e.key))
 			}
-			walk(e.v)
+			for k := range walk(e.v) {
+				fields[k] = true
+			}
 		}
+		for _, k := range data {
+			if fields[k] {
+				found = true
+			}
+		}
+		return fields
 	}
 	walk(d)
-	for k := range data {
-		if fields[k] {
-			return true
-		}
-	}
-	return false
+	return found
 }
 
 // ---------------------------------------------------------------- one (type, document) pair
@@ -431,13 +448,16 @@ func runPair(c *kit.Case, t *tdesc, plain bool, scratch string, idx int) {
 							}
 						}
 						if len(bad) > 0 {
-							cls := labelClass(label)
-							if mapKeyEqualsFieldName(d0) {
-								cls += "/map-key-equals-a-field-name"
-							} else if label == "well-typed" || label == "extra-key" || strings.HasPrefix(label, "missing-") {
-								cls += "/" + shapeClass(t)
+							key := "C17/keycase-" + kind + "/" + labelClass(label)
+							if label == "well-typed" || label == "extra-key" || strings.HasPrefix(label, "missing-") {
+								key += "/" + shapeClass(t)
 							}
-							c.Viol("C17/keycase-"+kind+"/"+cls+"/"+strings.Join(bad, "+"),
+							key += "/" + strings.Join(bad, "+")
+							if mapKeyEqualsFieldName(d0) {
+								// one class whatever else the document contains
+								key = "C17/keycase/map-key-equals-a-field-name"
+							}
+							c.Viol(key,
 								"changing only the letter case of struct-field keys changes the result",
 								map[string]any{"type": typeText(t.rt), "label": label, "formats": bad,
 									"canonical_documents": tx0.witness(), "permuted_documents": tx1.witness(),
@@ -457,7 +477,7 @@ func runPair(c *kit.Case, t *tdesc, plain bool, scratch string, idx int) {
 
 	// ---- oracle 4: encoding/json agreement (plain-json-tag types only)
 	if plain {
-		stdjson(c, t.rt, label, renderJSON(d0, rs))
+		stdjson(c, t.rt, label, renderJSON(d0, rs), !d0.has(nBigUint))
 		nontrivial = true
 	}
 	c.Sig(nontrivial, typeText(t.rt), renderJSON(d0, nil))
@@ -498,7 +518,9 @@ func fileOracle(c *kit.Case, rt reflect.Type, label string, tx texts, want [3]ou
 	}
 }
 
-func stdjson(c *kit.Case, rt reflect.Type, label, text string) {
+// inDomain: the input is a document value representable in all three formats (the property's
+// quantifier); outside it (nulls, numbers beyond 64-bit precision) differences are only counted.
+func stdjson(c *kit.Case, rt reflect.Type, label, text string, inDomain bool) {
 	a := load(rt, func(v any) error { return mapping.UnmarshalJsonBytes([]byte(text), v) })
 	if a.panic != "" {
 		c.Viol(panicKey(a.panic), "mapping.UnmarshalJsonBytes panicked",
@@ -509,8 +531,14 @@ func stdjson(c *kit.Case, rt reflect.Type, label, text string) {
 	switch {
 	case a.ok() && b.ok():
 		c.Obs("stdjson_both_accept", 1)
-		if !reflect.DeepEqual(a.val.Interface(), b.val.Interface()) {
-			c.Viol("C17/stdjson-value/"+diffClass(a.val, b.val)+"/"+labelClass(label), "mapping.UnmarshalJsonBytes and encoding/json both accept the input but decode different values",
+		if !reflect.DeepEqual(a.val.Interface(), b.val.Interface()) && !inDomain {
+			c.Obs("outside_quantifier_stdjson_value_differs_"+labelClass(label), 1)
+		} else if !reflect.DeepEqual(a.val.Interface(), b.val.Interface()) {
+			key := "C17/stdjson-value/" + diffClass(a.val, b.val)
+			if key != "C17/stdjson-value/float32-adjacent-values" {
+				key += "/" + labelClass(label)
+			}
+			c.Viol(key, "mapping.UnmarshalJsonBytes and encoding/json both accept the input but decode different values",
 				map[string]any{"type": typeText(rt), "label": label, "document": text,
 					"gozero": show(a.val), "encoding_json": show(b.val),
 					"gozero_go": truncate(fmt.Sprintf("%#v", a.val.Interface()), 800), "encoding_json_go": truncate(fmt.Sprintf("%#v", b.val.Interface()), 800)})
@@ -538,13 +566,13 @@ func exactDecimal(f float64) string {
 
 // rawNumber picks a JSON number literal with an unusual spelling.
 func rawNumber(r *kit.Rand, t *tdesc) (string, string) {
-	if t.k == tFloat && t.bits == 32 && r.Chance(0.5) {
-		// just above the midpoint of two adjacent float32 values: rounding to float64 first
-		// and to float32 afterwards differs from rounding to float32 directly
+	if t.k == tFloat && t.bits == 32 && r.Chance(0.3) {
+		// just above the midpoint of two adjacent float32 values, with more digits than a
+		// float64 carries (outside the quantifier: counted, not judged)
 		x := float32(0.5 + r.Float64()*1000)
 		y := math.Nextafter32(x, float32(math.Inf(1)))
 		mid := (float64(x) + float64(y)) / 2
-		return exactDecimal(mid) + "00000000000001", "float32-midpoint"
+		return exactDecimal(mid) + "00000000000001", "beyond-float64-float32-midpoint"
 	}
 	switch r.Intn(8) {
 	case 0:
@@ -554,11 +582,11 @@ func rawNumber(r *kit.Rand, t *tdesc) (string, string) {
 	case 2:
 		return kit.Choose(r, []string{"1.00", "3.0", "12.000"}), "trailing-zeros"
 	case 3:
-		return kit.Choose(r, []string{"1e400", "-1e400", "1e39", "1e-400"}), "huge-exponent"
+		return kit.Choose(r, []string{"1e400", "-1e400", "1e39", "1e-400"}), "beyond-float64-huge-exponent"
 	case 4:
-		return kit.Choose(r, []string{"123456789012345678901234567890", "18446744073709551616", "-9223372036854775809", "9223372036854775808"}), "many-digits"
+		return kit.Choose(r, []string{"123456789012345678901234567890", "18446744073709551616", "-9223372036854775809", "9223372036854775808"}), "beyond-float64-many-digits"
 	case 5:
-		return kit.Choose(r, []string{"0.1000000000000000055511151231257827", "3.14159265358979323846264338327950288", "0.30000000000000004"}), "long-fraction"
+		return kit.Choose(r, []string{"0.1000000000000000055511151231257827", "3.14159265358979323846264338327950288", "0.30000000000000004"}), "beyond-float64-long-fraction"
 	case 6:
 		return kit.Choose(r, []string{"16777217", "9007199254740993", "4294967296", "255", "256", "-129", "65535", "65536"}), "width-boundary"
 	default:
@@ -604,7 +632,22 @@ func runStdPair(c *kit.Case, t *tdesc) {
 	}
 	c.Evals(1)
 	text := renderJSON(d, kit.NewRand(r.Uint64()))
-	stdjson(c, t.rt, label, text)
+	stdjson(c, t.rt, label, text, !d.has(nNull) && !d.has(nBigUint) && !strings.Contains(label, "beyond-float64"))
+	if d.has(nNull) && t.k == tStruct && !d.has(nRawNum) {
+		// nulls are outside the three-format quantifier (TOML has none); the JSON and YAML
+		// loaders are still run on them, for panics only
+		rs := kit.NewRand(r.Uint64())
+		tx := texts{text, renderYAML(d, rs), ""}
+		for i := 0; i < 2; i++ {
+			i := i
+			o := load(t.rt, func(v any) error { return loaders[i]([]byte(tx[i]), v) })
+			c.Obs("conf_loads_null_documents", 1)
+			if o.panic != "" {
+				c.Viol(panicKey(o.panic), "go-zero panicked while loading a document with a null (conf.LoadFrom"+fmtNames[i]+"Bytes)",
+					map[string]any{"type": typeText(t.rt), "label": label, "format": fmtNames[i], "document": tx[i], "panic": o.panic})
+			}
+		}
+	}
 	c.Obs("stdjson_inputs", 1)
 	if c.Index < 2 {
 		c.Sample("stdjson", 2, map[string]any{"type": typeText(t.rt), "label": label, "document": text})
@@ -826,7 +869,7 @@ func TestVerifC17(t *testing.T) {
 	const docsPerType = 10
 
 	// random StructOf types with go-zero tag options (optional/default/options/range), durations
-	kit.Run(t, "C17", "gen", kit.N(1300, 90000), func(c *kit.Case) {
+	kit.Run(t, "C17", "gen", kit.N(3500, 90000), func(c *kit.Case) {
 		g := &tgen{r: c.R}
 		td := descOf(g.structT(c.R.Range(0, 3), 1))
 		for i := 0; i < docsPerType; i++ {
@@ -834,7 +877,7 @@ func TestVerifC17(t *testing.T) {
 		}
 	})
 	// random StructOf types with plain json name tags: three-format oracle + encoding/json oracle
-	kit.Run(t, "C17", "plain", kit.N(900, 60000), func(c *kit.Case) {
+	kit.Run(t, "C17", "plain", kit.N(2500, 60000), func(c *kit.Case) {
 		g := &tgen{r: c.R, plain: true}
 		td := descOf(g.structT(c.R.Range(0, 3), 1))
 		for i := 0; i < docsPerType; i++ {
@@ -842,14 +885,14 @@ func TestVerifC17(t *testing.T) {
 		}
 	})
 	// hand-written family with embedded structs
-	kit.Run(t, "C17", "fixed", kit.N(400, 30000), func(c *kit.Case) {
+	kit.Run(t, "C17", "fixed", kit.N(1000, 30000), func(c *kit.Case) {
 		td := descOf(fixedFamily[c.Index%len(fixedFamily)])
 		for i := 0; i < docsPerType; i++ {
 			runPair(c, td, false, scratch, i)
 		}
 	})
 	// encoding/json family: nulls, number spellings, key-case variants, top-level slices
-	kit.Run(t, "C17", "stdjson", kit.N(700, 50000), func(c *kit.Case) {
+	kit.Run(t, "C17", "stdjson", kit.N(2000, 50000), func(c *kit.Case) {
 		g := &tgen{r: c.R, plain: true}
 		rt := g.structT(c.R.Range(0, 3), 1)
 		if c.R.Chance(0.15) {
@@ -861,7 +904,7 @@ func TestVerifC17(t *testing.T) {
 		}
 	})
 	// ${VAR} expansion iff UseEnv
-	kit.Run(t, "C17", "env", kit.N(600, 20000), func(c *kit.Case) {
+	kit.Run(t, "C17", "env", kit.N(1500, 20000), func(c *kit.Case) {
 		runEnv(c, scratch)
 	})
 	kit.End()
